@@ -120,10 +120,13 @@ def check_run(R: Run, variant: str, kinds, workers, gate: bool, obs: Dict[str, A
     R.oracle(not obs["deadlock"] and obs["lock"] is None and all(o != "running" for o in outs),
              f"{variant}:deadlock-or-lock-left-held", case,
              f"threads {outs}, lock holder {obs['lock']} after a complete schedule", trivial=True)
-    odd = sorted({o for o in outs if o not in ("ok", "running", "AssertionError")})
+    faulty = {i for i, k in enumerate(kinds) if "!" in k}  # threads whose own storage call was made to fail
+    odd = sorted({o for i, o in enumerate(outs)
+                  if o not in ("ok", "running", "AssertionError") and not (i in faulty and o == "TransientError")})
     R.oracle(not odd, f"{variant}:write-raises-{'-'.join(odd) or 'other-exception'}", case,
              f"thread outcomes {outs} ({obs['text'][-200:]})", trivial=True)
-    R.oracle(all(o in ("ok", "running") for o in outs) or bool(odd), f"{variant}:write-fails-in-initiation-race", case,
+    R.oracle(all(o in ("ok", "running") or (i in faulty and o == "TransientError") for i, o in enumerate(outs))
+             or bool(odd), f"{variant}:write-fails-in-initiation-race", case,
              f"thread outcomes {outs} ({obs['text'][-200:]})")
     R.oracle(obs["ncreate"] == 1, f"{variant}:not-exactly-one-upload-initiated", case,
              f"create_multipart_upload called {obs['ncreate']} times")
@@ -131,13 +134,17 @@ def check_run(R: Run, variant: str, kinds, workers, gate: bool, obs: Dict[str, A
     R.oracle(all(u == one for u in obs["used_ids"]), f"{variant}:call-under-other-upload-id", case,
              f"ids returned {obs['ids']}, ids used {obs['used_ids']}")
     ok_parts = True
-    for i, k in enumerate(kinds):
+    for i, kf in enumerate(kinds):
+        k = kf.split("!")[0]
         if k == "f":
             want = repr({"Bucket": "bucket", "Key": "some/key.tif", "ETag": "final"})
         else:
             p = int(k[1:])
             want = repr({"PartNumber": p, "ETag": f"etag{p}"})
-            ok_parts = ok_parts and sum(1 for (q, _) in obs["uploads"] if q == p) == 1
+            # a part is uploaded once per write of it that returned (a write whose own call was made to fail
+            # uploads nothing; its retry does)
+            n_ok = sum(1 for j, kk in enumerate(kinds) if kk.split("!")[0] == k and outs[j] == "ok")
+            ok_parts = ok_parts and sum(1 for (q, _) in obs["uploads"] if q == p) == n_ok
         if outs[i] == "ok":
             ok_parts = ok_parts and obs["results"][i] == want
     R.oracle(ok_parts, f"{variant}:part-not-uploaded-exactly-once", case,
@@ -267,6 +274,23 @@ def _schedules(R: Run, S, procs, pool, xnames=None):
     for nm, pre in hist_local.items():
         exhaustive("local", ["w1", "w2"], None, HS, f"hist:{nm}", gate={"pre": pre})
         exhaustive("local", ["w1", "w2", "f"], None, S.COARSE, f"hist:{nm}", gate={"pre": pre, "gate": True})
+    # ---- transient storage errors: a thread's create / upload_part / complete call raises once; the documented
+    # retry (the same step on another copy) runs when the failed attempt has ended
+    FS = S.COARSE if R.quick else CW
+    exhaustive("local", ["w1!c", "w2"], None, HS, "fault:create")
+    exhaustive("local", ["w1!c", "w2!c", "w3"], None, C2 if R.quick else S.COARSE, "fault:create")
+    exhaustive("local", ["w1!u", "w2", "w1"], None, FS, "fault:upload+retry", gate={"after": {"2": [0]}})
+    exhaustive("local", ["w1", "w2", "f!u", "f"], None, S.COARSE, "fault:complete+retry",
+               gate={"gate": True, "after": {"3": [2]}})
+    for wk in ([0, 1], [0, 0]):
+        exhaustive("dist", ["w1!c", "w2"], wk, HS, "fault:create")
+    exhaustive("dist", ["w1!u", "w2", "w1"], [0, 1, 2], FS, "fault:upload+retry", gate={"after": {"2": [0]}})
+    exhaustive("dist", ["w1!u", "w2", "w1"], [0, 1, 0], FS, "fault:upload+retry", gate={"after": {"2": [0]}})
+    for wk in ([0, 1, 1, 2], [0, 1, 1, 1], [0, 0, 0, 1]):
+        exhaustive("dist", ["w1", "w2", "f!u", "f"], wk, S.COARSE, "fault:complete+retry",
+                   gate={"gate": True, "after": {"3": [2]}})
+    exhaustive("dist", ["w1!c", "w2", "f!u", "f"], [0, 1, 2, 3], S.COARSE, "fault:create+complete+retry",
+               gate={"gate": True, "after": {"3": [2]}})
     # ---- names computed by the real code in separate interpreter processes (distinct hash salts) feed the
     # shared Variable / Lock store: worker w uses the names child process w asked for
     if xnames:
@@ -294,6 +318,69 @@ def _schedules(R: Run, S, procs, pool, xnames=None):
     rand("dist", ["w1", "w2", "w3"], [0, 0, 0], n // 2)
     rand("dist", ["w1", "w2", "w3", "f"], [0, 1, 0, 2], n, gate=True)
     rand("dist", ["w1", "f", "w2"], [0, 1, 1], n // 2, oracle=False)
+
+
+# ------------------------------------------------------------------ one upload object over time (cancel)
+def seq_case(R: Run, ops: List[str]):
+    from . import c18_sched as S
+
+    out: Dict[str, Any] = {}
+
+    def real():
+        out.update(S.run_seq(ops))
+        return out["text"]
+
+    R.corr(f"c18 seq {list_s(ops)}", real, sig="seq|" + "".join(sorted({o[0] if o[0] != "c" else "c" for o in ops})))
+    if not out:
+        return
+    case = {"ops": ops}
+    last_all = None  # number of uploads created when the last successful cancel("all") returned
+    ncreated = 0
+    for i, st in enumerate(out["steps"]):
+        creates = [c for c in st["calls"] if c.startswith("create=")]
+        used = [c.split("=", 1)[1] for c in st["calls"] if c.startswith(("upload:", "complete="))]
+        op = st["op"]
+        if op in ("ca", "cA") and st["res"] == "ok":
+            R.oracle(st["after"] == "" and not st["active"], "seq:cancel-all-does-not-reset", {**case, "at": i},
+                     f"after {ops[: i + 1]}: uploadId {st['after']!r}, active uploads {st['active']}")
+        if op == "cc" or (op[0] == "c" and op[1:].isdigit() and "id" + op[1:] == st["before"]):
+            if st["res"] == "ok" and st["before"]:
+                R.oracle(st["after"] == "" and st["before"] not in st["active"], "seq:cancel-current-does-not-reset",
+                         {**case, "at": i}, f"after {ops[: i + 1]}: uploadId {st['after']!r}, active {st['active']}")
+        if op in ("w", "f"):
+            if st["before"] == "":
+                ok = len(creates) == 1 and used == [creates[0].split("=", 1)[1]] and st["res"] == "ok"
+                R.oracle(ok, "seq:first-write-on-reset-object-not-exactly-one-upload", {**case, "at": i},
+                         f"{ops[: i + 1]}: the object was not started; calls {st['calls']}, result {st['res']}")
+            else:
+                R.oracle(not creates and used == [st["before"]], "seq:write-on-started-object-changes-upload",
+                         {**case, "at": i}, f"{ops[: i + 1]}: uploadId was {st['before']}; calls {st['calls']}")
+            if last_all is not None:
+                fresh = all(int(u[2:]) > last_all for u in used if u.startswith("id"))
+                R.oracle(fresh, "seq:call-under-dead-id-after-cancel-all", {**case, "at": i},
+                         f"{ops[: i + 1]}: calls {st['calls']} although cancel('all') succeeded when {last_all} "
+                         "uploads had been created")
+        ncreated += len(creates)
+        if op in ("ca", "cA") and st["res"] == "ok":
+            last_all = ncreated
+
+
+def seq_cases(R: Run):
+    from . import c18_sched as S
+
+    L = R.pick(4, 5)
+    for n in range(1, L + 1):
+        for ops in itertools.product(S.SEQ_OPS, repeat=n):
+            if n == L and "w" not in ops and "f" not in ops:
+                continue
+            seq_case(R, list(ops))
+    # longer: cancel at every position of two full uploads of the same object
+    base = ["w", "w", "f", "w", "w", "f"]
+    for c in S.SEQ_OPS[2:]:
+        for pos in range(len(base) + 1):
+            seq_case(R, base[:pos] + [c] + base[pos:])
+            for pos2 in range(pos, len(base) + 1):
+                seq_case(R, base[:pos] + [c] + base[pos:pos2] + ["ca"] + base[pos2:])
 
 
 # ------------------------------------------------------------------ cross-process stage
@@ -574,6 +661,104 @@ def sink_cases(R: Run, root: Path):
             shutil.rmtree(work, ignore_errors=True)
 
 
+# ------------------------------------------------------------------ several sinks alive at once
+SINK_PAIRS = [
+    # (destination A, destination B, parts_base placement): minimal differences between two live sinks
+    ("d/dem.tif", "d/dem.msk", None),          # only the suffix differs
+    ("d/dem.tif", "d/dem.msk", "common"),
+    ("d/a.tif", "d/a.tif.ovr", None),          # one name a prefix of the other
+    ("d/a.tif", "d/a.tif.ovr", "common"),
+    ("d/A.tif", "d/a.tif", None),              # only the case differs
+    ("d/x.tif", "e/x.tif", None),              # only the directory differs
+    ("d/x.tif", "e/x.tif", "own"),             # same name under different parts_base
+    ("d/x", "d/x.parts", "common"),            # a destination named like a parts directory
+    ("d/.x.tif", "d/x.tif", None),             # hidden twin
+    ("d/x.tif.parts", "d/.x.tif", "common"),
+    ("d/data.tar.gz", "d/data.tar.bz2", None), # double suffix
+]
+
+
+def multi_sink_case(R: Run, root: Path, a: str, b: str, base_kind, order, keep: bool, datas):
+    """two sinks alive at once; `order` interleaves their operations (0 / 1 = next operation of sink A / B, each
+    doing write 1, write 2, finalise).  Correspondence: every sink behaves exactly as the single-sink model says
+    it does alone.  Oracle: every destination holds exactly its own bytes, nothing foreign or left over remains."""
+    from odc.geo.cog._mpu_fs import MPUFileSink
+
+    work = Path(tempfile.mkdtemp(dir=root))
+    (work / "d").mkdir()
+    (work / "e").mkdir()
+    bases = {None: (None, None), "common": (work / "pb", work / "pb"), "own": (work / "pb0", work / "pb1")}[base_kind]
+    dsts = [work / a, work / b]
+    res: List[Dict[str, Any]] = [{}, {}]
+
+    def real():
+        sinks = [MPUFileSink(dsts[i], parts_base=bases[i]) for i in (0, 1)]
+        recs: List[List[Dict[str, Any]]] = [[], []]
+        errs = ["ok", "ok"]
+        for i in order:
+            k = len(recs[i])
+            try:
+                if k < 2:
+                    recs[i].append(sinks[i](k + 1, datas[i][k].encode()))
+                else:
+                    recs[i].append(None)
+                    sinks[i].finalise(recs[i][:2], keep_parts=keep)
+            except AssertionError:
+                errs[i] = "ERR:AssertionError"
+            except FileNotFoundError:
+                errs[i] = "ERR:FileNotFoundError"
+            except ValueError:
+                errs[i] = "ERR:ValueError"
+            except OSError:
+                errs[i] = "ERR:OSError"
+        outs = []
+        for i in (0, 1):
+            pdir = Path(recs[i][0]["Path"]).parent if recs[i] and recs[i][0] else None
+            content = dsts[i].read_bytes().decode() if dsts[i].is_file() else None
+            left = []
+            if pdir is not None and pdir.is_dir():
+                left = sorted((int(f.name[1:-4]), f.read_bytes().decode()) for f in pdir.iterdir())
+            res[i].update(err=errs[i], content=content, left=left, dir=bool(pdir is not None and pdir.is_dir()))
+            outs.append(f"{errs[i]} ; dst{'N' if content is None else '=' + content} ; "
+                        f"parts={list_s([f'{p}:{d}' for p, d in left])} ; dir={'T' if res[i]['dir'] else 'F'}")
+        res[0]["tree"] = sorted(str(f.relative_to(work)) for f in work.rglob("*") if f.is_file())
+        return " | ".join(outs)
+
+    def line(i):
+        return f"c18 sink T {list_s([f'{p + 1}:{d}' for p, d in enumerate(datas[i])])} [1,2] {'T' if keep else 'F'}"
+
+    # the model side is two independent single-sink runs: registered as two lines, the real text split accordingly
+    text = guarded(real)
+    halves = text.split(" | ") if " | " in text else [text, text]
+    for i in (0, 1):
+        R.corr(line(i), lambda i=i: halves[i], sig=f"multi-sink|{base_kind}|keep={keep}")
+    case = {"a": a, "b": b, "base": base_kind, "order": list(order), "keep": keep, "data": datas}
+    if res[0]:
+        for i in (0, 1):
+            want = "".join(datas[i])
+            R.oracle(res[i]["err"] == "ok" and res[i]["content"] == want, "sink:two-sinks-interfere", {**case, "sink": i},
+                     f"destination {(a, b)[i]} holds {res[i]['content']!r} (finalise: {res[i]['err']}), its parts are "
+                     f"{want!r}; the other sink writes {(b, a)[i]}")
+        if not keep:
+            R.oracle(res[0]["tree"] == sorted([a, b]), "sink:two-sinks-leave-files", case,
+                     f"files left under the work directory: {res[0]['tree']}")
+    shutil.rmtree(work, ignore_errors=True)
+
+
+def multi_sink_cases(R: Run, root: Path):
+    rng = R.rng
+    orders = sorted(set(itertools.permutations([0, 0, 0, 1, 1, 1])))  # the 20 interleavings
+    for a, b, base_kind in SINK_PAIRS:
+        for n, order in enumerate(orders):
+            if R.quick and n % 2 and base_kind is not None:
+                continue
+            datas = [["".join(rng.choice(LETTERS) for _ in range(rng.choice([0, 1, 3]))) for _ in range(2)]
+                     for _ in range(2)]
+            if datas[0] == datas[1]:
+                datas[1][1] += "z"  # the two sinks must be distinguishable by content
+            multi_sink_case(R, root, a, b, base_kind, order, keep=(n % 5 == 0), datas=datas)
+
+
 # ------------------------------------------------------------------ limits
 KW = ["min_write_sz", "max_write_sz", "min_part", "max_part"]
 
@@ -676,6 +861,8 @@ def run(R: Run):
         xh = xproc_start(R)  # child interpreters work while the sink / limits stages run
         limit_cases(R, root)
         sink_cases(R, root)
+        multi_sink_cases(R, root)
+        seq_cases(R)
         xnames = xproc_names(R, xh)
         xproc_real(R, xh)
         schedules(R, xnames)
@@ -743,6 +930,29 @@ def replay(R: Run, rec) -> int:
         for f in probe.oracle_failures:
             print("FAILS:", f["key"], "-", f["what"])
         return 1 if probe.oracle_failures else 0
+    if key.startswith("seq:"):
+        probe = Run(R.prop, R.tier, R.seed)
+        seq_case(probe, case["ops"])
+        print("real :", probe.real[0])
+        try:
+            R.proof_stage()
+            print("model:", run_driver("C18", [probe.lines[0]])[0])
+        except Exception as e:  # pylint: disable=broad-except
+            print("model: unavailable:", e)
+        for f in probe.oracle_failures:
+            print("FAILS:", f["key"], "-", f["what"])
+        return 1 if probe.oracle_failures else 0
+    if key in ("sink:two-sinks-interfere", "sink:two-sinks-leave-files"):
+        root = Path(tempfile.mkdtemp(prefix="c18-"))
+        try:
+            probe = Run(R.prop, R.tier, R.seed)
+            multi_sink_case(probe, root, case["a"], case["b"], case["base"], case["order"], case["keep"], case["data"])
+            print("real :", probe.real[0], "|", probe.real[1])
+            for f in probe.oracle_failures:
+                print("FAILS:", f["key"], "-", f["what"])
+            return 1 if probe.oracle_failures else 0
+        finally:
+            shutil.rmtree(root, ignore_errors=True)
     if key.startswith("sink:"):
         root = Path(tempfile.mkdtemp(prefix="c18-"))
         try:
